@@ -74,9 +74,17 @@ def from_node(node: Union[NodeTemplate, EdgeTemplate], return_dict: dict, base: 
     new_dict = {'base': base, 'operators': []}
 
     # collect operator definitions
+    variations = {}
     for op, updates in node.operators.items():
-        opkey = from_operator(op=op, updates=updates, return_dict=return_dict)
+        opkey = from_operator(op=op, updates={}, return_dict=return_dict)
         new_dict['operators'].append(opkey)
+        if updates:
+            variations[opkey] = dict(updates)
+
+    # values that the node defines for variables of its operators are written as such (the operator definition, its name
+    # and hence all variable paths that edges and outputs refer to stay as they are)
+    if variations:
+        new_dict['operators'] = {opkey: variations.get(opkey, {}) for opkey in new_dict['operators']}
 
     # add node information to the return dictionary
     return add_to_dict(node, new_dict, return_dict)
